@@ -77,8 +77,8 @@ def oracle(case, recs, out, stats):
                     eq = op.index("=") if "=" in op else len(op)
                     n = "%d[%s]" % (cid, ",".join(op[2:eq]))
                     targets = [n] if n in before else []
-                    if op[0] == "set" and res.startswith("err Type"):
-                        targets = []
+                    if op[0] == "set" and res != "ok":
+                        targets = []        # a refused assignment (unhashable key, None not allowed) changes nothing
                 elif op[0] == "clear":
                     targets = [x for x, v in before.items() if x.startswith("%d[" % cid) and v.endswith("C")]
                 else:
